@@ -284,6 +284,20 @@ def runNumeric (lines : List String) : IO Unit := do
           for c in List.range sts.size do
             V := mset V sts[r]! (base + c) (mget U r c)
       a := { a with s := { s with E := E, kOf := kOf, kStart := kStart, V := V, haveEig := true } }
+      -- C07: the Hamiltonian (Jordan-Wigner matrix of the stored terms) has no element between states of different blocks
+      if s.M ≤ 6 && s.blocks.size > 1 then
+        let Hp := polyMatrix s.M s.ham
+        let scale := 1.0 + maxAbs Hp
+        let mut bad : Option (Nat × Nat × Float) := none
+        for r in List.range s.dim do
+          for c in List.range s.dim do
+            let v := (mget Hp r c).abs
+            if v > 1.0e-12 * scale && blockOfState s r != blockOfState s c && bad.isNone then bad := some (r, c, v)
+        a := a.bump "interblock_scans"
+        match bad with
+        | some (r, c, v) =>
+          a ← fail a "C07" s!"the Hamiltonian has the matrix element |<{r}|H|{c}>| = {v} between states of different blocks ({blockOfState s r} and {blockOfState s c})"
+        | none => pure ()
       if E.size != s.dim then
         a ← fail a "C03" s!"the blocks report {E.size} eigenvalues for a Fock space of dimension {s.dim}"
       else
@@ -645,7 +659,7 @@ def runNumeric (lines : List String) : IO Unit := do
       -- stress mode: repeated prepare()/compute(), copies and re-evaluation must not change any value
       a := a.bump "idempotence_checks"
       if rest.getLastD "1" != "1" then
-        let prop := if what == "gf" then "C01" else if what == "chi" then "C02" else if what == "vertex" then "C15" else "C14"
+        let prop := if what == "gf" then "C01" else if what == "chi" then "C02" else if what == "vertex" then "C15" else if what == "avg" then "C09" else "C14"
         a ← fail a prop s!"{what} {" ".intercalate rest.dropLast}: repeated prepare/compute, a copy or a second evaluation changes the value"
     | ["o", "chipurged", i, j, k, l, n1, n2, n3, re, im] =>
       -- after a table computation that discarded the terms the object may refuse on-demand evaluation, but if it answers,
